@@ -97,7 +97,11 @@ func g1Adapter() *adapter {
 	ad.add = func(p, q pt) pt { var R bls.G1; R.Add(p.(*bls.G1), q.(*bls.G1)); return &R }
 	ad.dbl = func(p pt) pt { R := *p.(*bls.G1); R.Double(); return &R }
 	ad.neg = func(p pt) pt { R := *p.(*bls.G1); R.Neg(); return &R }
-	ad.mul = func(k *big.Int, p pt) pt { var R bls.G1; R.ScalarMult(blsScalar(k, blsScalarBytes), p.(*bls.G1)); return &R }
+	ad.mul = func(k *big.Int, p pt) pt {
+		var R bls.G1
+		R.ScalarMult(blsScalar(k, blsScalarBytes), p.(*bls.G1))
+		return &R
+	}
 	return ad
 }
 
@@ -116,7 +120,11 @@ func g2Adapter() *adapter {
 	ad.add = func(p, q pt) pt { var R bls.G2; R.Add(p.(*bls.G2), q.(*bls.G2)); return &R }
 	ad.dbl = func(p pt) pt { R := *p.(*bls.G2); R.Double(); return &R }
 	ad.neg = func(p pt) pt { R := *p.(*bls.G2); R.Neg(); return &R }
-	ad.mul = func(k *big.Int, p pt) pt { var R bls.G2; R.ScalarMult(blsScalar(k, blsScalarBytes), p.(*bls.G2)); return &R }
+	ad.mul = func(k *big.Int, p pt) pt {
+		var R bls.G2
+		R.ScalarMult(blsScalar(k, blsScalarBytes), p.(*bls.G2))
+		return &R
+	}
 	return ad
 }
 
